@@ -317,7 +317,7 @@ def existsMatch (dev : Dev) (fo : FloatOps) (ps : List CorrPred) (l r : Row) : B
     the `=` predicates whose inner column is an output column of the subquery (`outCols`) do — the others are lost; the
     intended rewrite keeps them all. -/
 def inCorrKept (dev : Dev) (outCols : List Nat) (p : CorrPred) : Bool :=
-  !(dev.inDropsNonEqCorr && !(p.op == .eq)) && !(dev.inDropsProjectedCorr && !outCols.contains p.innerCol)
+  !(dev.inDropsNonEqCorr && !(p.op == .eq)) && !(dev.inDropsProjectedCorr && p.op == .eq && !outCols.contains p.innerCol)
 
 def inCorrMatch (dev : Dev) (fo : FloatOps) (outCols : List Nat) (ps : List CorrPred) (l r : Row) : Bool :=
   (ps.filter (inCorrKept dev outCols)).all (fun p => p.holds fo l r)
